@@ -17,7 +17,7 @@ MAX_REPORT = 3
 
 PROP_KINDS = {
     "C01": ("STORE", "LOAD", "PREDICT"),
-    "C02": ("MAKE_DATA", "FIT", "PREDICT", "SCRIBBLE_DATA", "SCRIBBLE_PRED", "INSPECT", "STORE"),
+    "C02": ("MAKE_DATA", "FIT", "PREDICT", "SCRIBBLE_DATA", "SCRIBBLE_PRED", "INSPECT", "STORE", "ABORT_SWEEP"),
     "C03": ("MAKE_DATA", "FIT", "PREDICT"),
     "C04": ("FIT", "PREDICT", "LOAD"),
     "C05": ("PREDICT_PAIR",),
